@@ -169,7 +169,7 @@ def run(tier, seed):
     corr = [meta[i] for i in failing[:4]]
     # ---- whole passes of real TrajectoryCum runs replayed through Model/Traj.step_cum
     import ptraj
-    tc, tmeta = ptraj.collect(res, rng, 7 if tier == "quick" else 150, 40 if tier == "quick" else 1500, kind="cum")
+    tc, tmeta = ptraj.collect(res, rng, 8 if tier == "quick" else 150, 64 if tier == "quick" else 1500, kind="cum")
     f4, e4 = run_case_check("C09traj", ptraj.PRELUDE_T, "caseC", "chkC", tc, per_file=8, timeout=1500)
     for e in e4:
         res.violation("model evaluation failed (coqc)", dict(kind="coqc-error", log=e, no_failing_input_found=True))
